@@ -56,7 +56,7 @@ Proof. intros (pc & Hpc & <- & Hw). unfold live_ids. apply in_map. apply filter_
 Definition T0 (pr : profile) : Z := S * (ballot_total pr + eballot_total pr).
 
 Lemma pre0_init (pr : profile) : wf_profile_m pr ->
-  Pre0 A S ZL (T0 pr) (live_ids pr) (zero_votes A (init_state A cfg pr)).
+  Pre0 A S ZL cfg (T0 pr) (live_ids pr) (zero_votes A (init_state A cfg pr)).
 Proof.
   intros [Hwf Hwe]. destruct (init_state_shape A cfg pr) as (Ec & Eb & Ea).
   assert (HV0: R (V0' A) = 0) by (unfold V0'; rewrite (r_of_int A S ZL); lia).
@@ -82,14 +82,14 @@ Qed.
 
 Theorem count_meek_inv pr fuel s k : wf_profile_m pr ->
   exec (@crashed A) fuel (count_cmd A cfg RMeek) (init_state A cfg pr) = Some (s, k) -> k <> Abort ->
-  MI A S ZL (T0 pr) s.
+  MI A S ZL cfg (T0 pr) s.
 Proof.
   intros Hwf He Hk.
   assert (Ht: triple est (@crashed A) (fun s0 => s0 = init_state A cfg pr) (count_cmd A cfg RMeek)
-            (MI A S ZL (T0 pr)) (MI A S ZL (T0 pr)) (MI A S ZL (T0 pr))).
-  { unfold count_cmd. eapply t_seq with (M := Pre0 A S ZL (T0 pr) (live_ids pr)).
+            (MI A S ZL cfg (T0 pr)) (MI A S ZL cfg (T0 pr)) (MI A S ZL cfg (T0 pr))).
+  { unfold count_cmd. eapply t_seq with (M := Pre0 A S ZL cfg (T0 pr) (live_ids pr)).
     - apply t_do. intros s0 ->. apply pre0_init. exact Hwf.
-    - eapply t_seq with (M := MI A S ZL (T0 pr)); [cbn [rule_cmd]; apply (meek_triple A S ZL cfg (T0 pr) Hmeth)|].
+    - eapply t_seq with (M := MI A S ZL cfg (T0 pr)); [cbn [rule_cmd]; apply (meek_triple A S ZL cfg (T0 pr) Hmeth)|].
       apply t_do. intros s0 M. apply (mi_log A S ZL cfg (T0 pr) Hmeth); [discriminate|exact M]. }
   specialize (Ht fuel _ s k eq_refl He). destruct k; try exact Ht. congruence.
 Qed.
@@ -100,8 +100,19 @@ Theorem count_meek_iterations pr fuel s k : wf_profile_m pr ->
   forall a sn, In a (actions s) -> a_tag a = TIterate -> a_snap a = Some sn ->
   R (as_votes sn) + match as_nt sn with Some x => R x | None => 0 end = S * (ballot_total pr + eballot_total pr).
 Proof.
-  intros Hwf He Hk a sn Ha Ht Hs. pose proof (mi_hist _ _ _ _ _ (count_meek_inv pr fuel s k Hwf He Hk)) as H.
-  rewrite Forall_forall in H. specialize (H a Ha Ht). rewrite Hs in H. exact H.
+  intros Hwf He Hk a sn Ha Ht Hs. pose proof (mi_hist A S ZL cfg (T0 pr) s (count_meek_inv pr fuel s k Hwf He Hk)) as H.
+  rewrite Forall_forall in H. specialize (H a Ha Ht). rewrite Hs in H. exact (proj1 H).
+Qed.
+
+(* ... and the quota it reports is the prescribed one, recomputed from the votes still credited:
+   floor(votes / (seats + 1)) in the arithmetic's precision, plus one unit in the last place unless the arithmetic is exact *)
+Theorem count_meek_quota pr fuel s k : wf_profile_m pr ->
+  exec (@crashed A) fuel (count_cmd A cfg RMeek) (init_state A cfg pr) = Some (s, k) -> k <> Abort ->
+  forall a sn, In a (actions s) -> a_tag a = TIterate -> a_snap a = Some sn ->
+  R (as_quota sn) = R (as_votes sn) * S / ((cf_nseats cfg + 1) * S) + (if exact A then 0 else R (epsilon A)).
+Proof.
+  intros Hwf He Hk a sn Ha Ht Hs. pose proof (mi_hist A S ZL cfg (T0 pr) s (count_meek_inv pr fuel s k Hwf He Hk)) as H.
+  rewrite Forall_forall in H. specialize (H a Ha Ht). rewrite Hs in H. exact (proj2 H).
 Qed.
 
 (* the final 'end' action: tallies of the non-withdrawn candidates + residual = the ballot count the count was given *)
@@ -113,7 +124,7 @@ Proof.
   intros Hwf He Hk.
   assert (Ht: triple est (@crashed A) (fun s0 => s0 = init_state A cfg pr) (count_cmd A cfg RMeek)
             (EndSnap A S ZL cfg) (fun _ => False) (fun _ => False)).
-  { unfold count_cmd. eapply t_seq with (M := Pre0 A S ZL (T0 pr) (live_ids pr)).
+  { unfold count_cmd. eapply t_seq with (M := Pre0 A S ZL cfg (T0 pr) (live_ids pr)).
     - apply t_do. intros s0 ->. apply pre0_init. exact Hwf.
     - eapply t_seq with (M := EndOK A S ZL cfg (T0 pr)); [cbn [rule_cmd]; apply (meek_triple_end A S ZL cfg (T0 pr) Hmeth)|].
       apply t_do. intros s0 H. apply (end_snap A S ZL cfg (T0 pr) Hmeth). exact H. }
@@ -137,7 +148,7 @@ Proof.
 Qed.
 
 Lemma prep_init (pr : profile) : wf_profile pr ->
-  PreP A S ZL (S * ballot_total pr) (S * eballot_total pr) (live_ids pr) (zero_votes A (init_state A cfg pr)).
+  PreP A S ZL cfg (S * ballot_total pr) (S * eballot_total pr) (live_ids pr) (zero_votes A (init_state A cfg pr)).
 Proof.
   intros Hwf. destruct (init_state_shape A cfg pr) as (Ec & Eb & Ea).
   assert (HV0: R (V0' A) = 0) by (unfold V0'; rewrite (r_of_int A S ZL); lia).
@@ -179,7 +190,7 @@ Proof.
   set (T := S * ballot_total pr). set (E := S * eballot_total pr).
   assert (Ht: triple est (@crashed A) (fun s0 => s0 = init_state A cfg pr) (count_cmd A cfg RMeekPrf)
             (fun s => PH A S ZL T s /\ EndSnap A S ZL cfg s) (fun _ => False) (fun _ => False)).
-  { unfold count_cmd. eapply t_seq with (M := PreP A S ZL T E (live_ids pr)).
+  { unfold count_cmd. eapply t_seq with (M := PreP A S ZL cfg T E (live_ids pr)).
     - apply t_do. intros s0 ->. apply prep_init. exact Hwf.
     - eapply t_seq with (M := EndOKp A S ZL cfg T E); [cbn [rule_cmd]; apply (meek_prf_triple A S ZL cfg T E Hmeth)|].
       apply t_do. intros s0 (M & Hn & Hq & P). split.
@@ -214,14 +225,14 @@ Qed.
 
 Theorem count_meek_inv_j pr fuel s k : wf_profile_m pr ->
   exec (@crashed A) fuel (count_cmd A cfg RMeek) (init_state A cfg pr) = Some (s, k) -> k <> Abort ->
-  J A S ZL (T0 pr) s.
+  J A S ZL cfg (T0 pr) s.
 Proof.
   intros Hwf He Hk.
   assert (Ht: triple est (@crashed A) (fun s0 => s0 = init_state A cfg pr) (count_cmd A cfg RMeek)
-            (J A S ZL (T0 pr)) (J A S ZL (T0 pr)) (J A S ZL (T0 pr))).
-  { unfold count_cmd. eapply t_seq with (M := fun s0 => Pre0 A S ZL (T0 pr) (live_ids pr) s0 /\ PreK A S ZL s0).
+            (J A S ZL cfg (T0 pr)) (J A S ZL cfg (T0 pr)) (J A S ZL cfg (T0 pr))).
+  { unfold count_cmd. eapply t_seq with (M := fun s0 => Pre0 A S ZL cfg (T0 pr) (live_ids pr) s0 /\ PreK A S ZL s0).
     - apply t_do. intros s0 ->. split; [apply pre0_init; exact Hwf|apply prek_init; exact Hwf].
-    - eapply t_seq with (M := J A S ZL (T0 pr)); [cbn [rule_cmd]; apply (meek_triple_j A S ZL cfg Hex (T0 pr) Hmeth Hseats Hnb (live_ids pr))|].
+    - eapply t_seq with (M := J A S ZL cfg (T0 pr)); [cbn [rule_cmd]; apply (meek_triple_j A S ZL cfg Hex (T0 pr) Hmeth Hseats Hnb (live_ids pr))|].
       apply t_do. intros s0 [M K]. split; [apply (mi_log A S ZL cfg (T0 pr) Hmeth); [discriminate|exact M]|apply (ki_log A S ZL cfg Hmeth); [discriminate|exact K]]. }
   specialize (Ht fuel _ s k eq_refl He). destruct k; try exact Ht. congruence.
 Qed.
